@@ -221,6 +221,20 @@ def c14(tier):
                         _mk(method=meth, N=N, M=M, degree=2, states=[1, 2], scales=dict(sc), variables={"": [1], "control": [1], "control+": [1]},
                             ode=E("f", None, ("x", "u", "t", "v", "vc", "vcp")), constraints=cons() + [Con(E("c4", 1, ("x", "vcp")), "le", 1.0)],
                             objective=[("integral", E("L", 1, ("x", "u"))), ("at_tf", E("Mf", 1, ("x",)))])))
+    # guesses stay in physical units: scaled algebraic variables under the shooting methods (root-finder start values) ...
+    for meth in ("MS", "SS"):
+        for after in (0, "all"):
+            out.append(("%s-dae-scaled-algebraic-guesses%s" % (meth, "-after" if after else ""),
+                        _mk(method=meth, intg="collocation", N=2, M=2, algebraics=[2, 1], scales={"z": "unknown", "x": "unknown", "u": "unknown"}, T=("fixed", 2.0), t0=("fixed", 0.5),
+                            ode=E("f", None, ("x", "u", "z", "t")), alg=E("g", None, ("x", "z", "u")), initial_after=after,
+                            initial=[(("z", 0), ("unknown", "g_za", 2, 1)), (("z", 1), E("gzb", 1, ("t",))), (("x", 0), ("unknown", "g_x", 2, 1)), (("u", 0), E("gu", 1, ("t",)))])))
+    # ... and every scaled decision variable of every method
+    for meth in ("MS", "SS", "DC"):
+        out.append(("%s-scaled-guesses" % meth, _mk(method=meth, N=2, M=2, degree=2, states=[1, 2], scales=dict(sc), variables={"": [1], "control": [1], "control+": [1]},
+                                                    algebraics=[1] if meth == "DC" else [], ode=E("f", None, ("x", "u", "t") + (("z",) if meth == "DC" else ())),
+                                                    alg=E("g", None, ("x", "z")) if meth == "DC" else None, T=("free", 1.5),
+                                                    initial=[(("x", 0), ("unknown", "g_x0", 1, 1)), (("x", 1), E("gx1", 2, ("t",))), (("u", 0), E("gu", 1, ("t",))), ((("v", ""), 0), ("unknown", "g_v", 1, 1)),
+                                                             ((("v", "control"), 0), ("unknown", "a_vc", 1, 2)), ((("v", "control+"), 0), E("gvcp", 1, ("t",)))] + ([(("z", 0), ("unknown", "g_z", 1, 1))] if meth == "DC" else []))))
     # derivative scales with set_der called in another order than the states were declared
     out.append(("DC-der-scales-reversed-set_der", _mk(method="DC", N=2, M=2, degree=2, states=[1, 2, 1], scales=dict(sc), der_order="reversed",
                                                       ode=E("f", None, ("x", "u", "t")), constraints=cons())))
@@ -313,6 +327,14 @@ def c10(tier):
         out.append(("%s-N3-M2-after-T-guess" % meth, _mk(method=meth, N=3, M=2, degree=2, T=("free", 1.0), t0=("free", 0.0),
                                                           initial=texpr_states() + texpr_controls() + [("t0", ("unknown", "g_t0", 1, 1)), ("T", ("unknown", "g_T", 1, 1))], initial_after=2, **base)))
         out.append(("%s-N2-M1-after-arrays" % meth, _mk(method=meth, N=2, M=1, degree=2, initial=consts() + arrays(2, True), initial_after=4, **base)))
+        if meth != "DC":
+            # DAE under a shooting method (builtin integrator): the guess of an algebraic variable is the root finder's start
+            for intg in ("collocation", "idas"):
+                for after in (0, "all"):
+                    out.append(("%s-dae-%s-algebraic-guesses%s" % (meth, intg, "-after" if after else ""),
+                                _mk(method=meth, intg=intg, N=2, M=2, algebraics=[2, 1], scales={"z": "unknown", "x": "unknown"}, T=("fixed", 2.0), t0=("fixed", 0.5),
+                                    ode=E("f", None, ("x", "u", "z", "t")), alg=E("g", None, ("x", "z", "u")), initial_after=after,
+                                    initial=[(("z", 0), ("unknown", "g_za", 2, 1)), (("z", 1), E("gzb", 1, ("t",))), (("x", 0), ("unknown", "g_x", 2, 1))])))
         if meth == "DC":
             out.append(("DC-dae-algebraic-guesses", _mk(method="DC", N=2, M=2, degree=2, algebraics=[2, 1], T=("free", 1.5), t0=("fixed", 0.5),
                                                         ode=E("f", None, ("x", "u", "z", "t")), alg=E("g", None, ("x", "z", "u")),
@@ -330,8 +352,9 @@ def c10(tier):
     return out
 
 
-def _with_generated(fn, select, n_quick, n_thorough):
-    """catalogue family + the generated specifications (contracts/randspec.py) that are relevant for the property"""
+def _with_generated(fn, select, n_quick, n_thorough, late=None):
+    """catalogue family + the generated specifications (contracts/randspec.py) that are relevant for the property;
+    late: every third one additionally gets this history (declarations made only after a first transcription)"""
     def fam(tier):
         from . import randspec
         out = list(fn(tier))
@@ -340,6 +363,14 @@ def _with_generated(fn, select, n_quick, n_thorough):
             kw = randspec.make(i)
             if select(kw):
                 out.append(("R%03d-%s" % (i, kw["method"]), (lambda i=i: Spec(**randspec.make(i)))))
+                if late and i % 3 == 0:
+                    def fac(i=i):
+                        kw = randspec.make(i)
+                        lt = dict(late)
+                        if "objective" in lt:
+                            lt["objective"] = max(1, len(kw["objective"]) // 2)
+                        return Spec(late=lt, **kw)
+                    out.append(("R%03d-%s-%s-after-transcription" % (i, kw["method"], "+".join(sorted(late))), fac))
         return out
     return fam
 
@@ -389,10 +420,10 @@ def _c09_generated(tier):
 
 NQ, NT = 80, 300
 FAMILIES = dict(C10=_c10_generated, C13=_c13_generated,
-                C01=_with_generated(c01, lambda kw: kw["method"] in ("MS", "SS"), NQ, NT),
-                C02=_with_generated(c02, lambda kw: kw["method"] == "DC", NQ, NT),
-                C04=_with_generated(c04, lambda kw: bool(kw["constraints"]), NQ, NT),
-                C05=_with_generated(c05, lambda kw: bool(kw["objective"]), NQ, NT),
+                C01=_with_generated(c01, lambda kw: kw["method"] in ("MS", "SS"), NQ, NT, late=dict(ode=True)),
+                C02=_with_generated(c02, lambda kw: kw["method"] == "DC", NQ, NT, late=dict(ode=True)),
+                C04=_with_generated(c04, lambda kw: bool(kw["constraints"]), NQ, NT, late=dict(constraints=1)),
+                C05=_with_generated(c05, lambda kw: bool(kw["objective"]), NQ, NT, late=dict(objective=1)),
                 C06=_with_generated(c06, lambda kw: kw["grid"] != dict(kind="uniform"), NQ, NT),
                 C09=_c09_generated,
                 C11=_with_generated(c11, lambda kw: kw["T"][0] != "fixed" or kw["t0"][0] != "fixed", NQ, NT),
